@@ -33,21 +33,21 @@ def bf_complete(u):
 
 
 def good(u):
-    return (has(u, 2) == bf_complete(u)) and (not has(u, 2) or has(u, 0))
+    """Good of Model/Crash.v: index batch durable -> blockfile complete and state batch durable"""
+    return (not has(u, 2)) or (bf_complete(u) and has(u, 0))
 
 
 def klass(u):
-    """the three bad classes (exhaustive and disjoint on not-Good sets)"""
+    """the bad classes (exhaustive and disjoint on not-Good sets); class B (blockfile complete,
+    index batch lost) was repaired in /repo and is Good now"""
     if good(u):
         return None
     if has(u, 2) and not has(u, 0):
         return "A"     # index batch durable, state batch lost
-    if not has(u, 2) and bf_complete(u):
-        return "B"     # blockfile complete, index batch lost
     return "C"         # index (and state) durable, blockfile incomplete
 
 
-FINDING = {"A": "C11-index-without-state", "B": "C11-blockfile-without-index", "C": "C11-index-without-blockfile"}
+FINDING = {"A": "C11-index-without-state", "C": "C11-index-without-blockfile"}
 
 
 def ideal(u, prune_possible):
